@@ -104,6 +104,64 @@ fn rt_borsh<V: borsh::BorshSerialize + borsh::BorshDeserialize + PartialEq>(v: &
     }
 }
 
+/// Run-time dispatch on "does this type implement the (de)serialization traits at all" (autoref
+/// specialisation; only valid at call sites with concrete types, which all of ours are): a type that lost a
+/// derive still lets the harness build, and the missing round trip is reported as an observation.
+pub struct Wrap<'a, V>(pub &'a V, pub &'a dyn Fn(&V) -> Vec<f64>);
+pub type Rt = Option<Result<(Vec<f64>, bool), String>>;
+
+pub trait SerdeYes {
+    fn json_rt(&self) -> Rt;
+    fn cbor_rt(&self) -> Rt;
+}
+impl<'a, V: Serialize + DeserializeOwned + PartialEq> SerdeYes for Wrap<'a, V> {
+    fn json_rt(&self) -> Rt {
+        Some(rt_json(self.0, |w| (self.1)(w)))
+    }
+    fn cbor_rt(&self) -> Rt {
+        Some(rt_cbor(self.0, |w| (self.1)(w)))
+    }
+}
+pub trait SerdeNo {
+    fn json_rt(&self) -> Rt {
+        None
+    }
+    fn cbor_rt(&self) -> Rt {
+        None
+    }
+}
+impl<'a, V> SerdeNo for &Wrap<'a, V> {}
+
+#[cfg(feature = "borsh")]
+pub trait BorshYes {
+    fn borsh_rt(&self) -> Rt;
+}
+#[cfg(feature = "borsh")]
+impl<'a, V: borsh::BorshSerialize + borsh::BorshDeserialize + PartialEq> BorshYes for Wrap<'a, V> {
+    fn borsh_rt(&self) -> Rt {
+        Some(rt_borsh(self.0, |w| (self.1)(w)))
+    }
+}
+pub trait BorshNo {
+    fn borsh_rt(&self) -> Rt {
+        None
+    }
+}
+impl<'a, V> BorshNo for &Wrap<'a, V> {}
+
+fn compare_opt(m: &mut Mon, format: &str, tname: &str, before: &[f64], rt: Rt) {
+    match rt {
+        Some(r) => compare(m, format, tname, before, r),
+        None => {
+            m.eval();
+            m.count(&format!("{}:{}", format, tname));
+            m.violation(&format!("{} round trip impossible: the type does not implement both serialization traits", format), || {
+                json!({"type": tname, "format": format})
+            });
+        }
+    }
+}
+
 #[cfg(not(feature = "borsh"))]
 macro_rules! borsh_lane {
     ($m:expr, $v:expr, $flat:expr, $name:expr, $before:expr) => {};
@@ -111,7 +169,7 @@ macro_rules! borsh_lane {
 #[cfg(feature = "borsh")]
 macro_rules! borsh_lane {
     ($m:expr, $v:expr, $flat:expr, $name:expr, $before:expr) => {
-        compare($m, "borsh", $name, $before, rt_borsh($v, $flat));
+        compare_opt($m, "borsh", $name, $before, (&Wrap($v, &$flat)).borsh_rt());
     };
 }
 
@@ -125,31 +183,31 @@ macro_rules! family {
         let nums: Vec<f64> = (0..<T as Nums>::LEN).map(|_| value(r, false)).collect();
         let v = T::from_nums(&nums);
         m.case(hash_bits(18, nums.iter().map(|e| e.to_bits()).chain([<T as Nums>::LEN as u64, name.len() as u64])));
-        compare(m, "cbor", name, &nums, rt_cbor(&v, |w: &T| w.nums()));
+        compare_opt(m, "cbor", name, &nums, (&Wrap(&v, &|w: &T| w.nums())).cbor_rt());
         borsh_lane!(m, &v, |w: &T| w.nums(), name, &nums);
         // text format: finite only
         let numsf: Vec<f64> = (0..<T as Nums>::LEN).map(|_| value(r, true)).collect();
         let vf = T::from_nums(&numsf);
-        compare(m, "json", name, &numsf, rt_json(&vf, |w: &T| w.nums()));
+        compare_opt(m, "json", name, &numsf, (&Wrap(&vf, &|w: &T| w.nums())).json_rt());
         // Segment<T>
         let sn: Vec<f64> = (0..<T as Nums>::LEN + 1).map(|_| value(r, false)).collect();
         let sv = Segment::<T>::from_nums(&sn);
-        compare(m, "cbor", "Segment", &sn, rt_cbor(&sv, |w: &Segment<T>| w.nums()));
+        compare_opt(m, "cbor", "Segment", &sn, (&Wrap(&sv, &|w: &Segment<T>| w.nums())).cbor_rt());
         borsh_lane!(m, &sv, |w: &Segment<T>| w.nums(), "Segment", &sn);
         let snf: Vec<f64> = (0..<T as Nums>::LEN + 1).map(|_| value(r, true)).collect();
         let svf = Segment::<T>::from_nums(&snf);
-        compare(m, "json", "Segment", &snf, rt_json(&svf, |w: &Segment<T>| w.nums()));
+        compare_opt(m, "json", "Segment", &snf, (&Wrap(&svf, &|w: &Segment<T>| w.nums())).json_rt());
         // Piecewise<T> with 0..200 segments
         let n = match r.below(10) { 0 => 0, 1 => 1, 2 => r.usize(50, 200), _ => r.usize(2, 12) };
         m.count(&format!("piecewise_segments:{}", if n == 0 { "0" } else if n == 1 { "1" } else if n < 50 { "2-49" } else { "50-200" }));
         let pn: Vec<f64> = (0..n * (<T as Nums>::LEN + 1)).map(|_| value(r, false)).collect();
         let pv: Piecewise<T> = Piecewise { segments: pn.chunks(<T as Nums>::LEN + 1).map(|c| Segment::<T>::from_nums(c)).collect() };
         m.case(hash_bits(181, pn.iter().map(|e| e.to_bits()).chain([n as u64, name.len() as u64])));
-        compare(m, "cbor", "Piecewise", &pn, rt_cbor(&pv, |w: &Piecewise<T>| pw_nums(w)));
+        compare_opt(m, "cbor", "Piecewise", &pn, (&Wrap(&pv, &|w: &Piecewise<T>| pw_nums(w))).cbor_rt());
         borsh_lane!(m, &pv, |w: &Piecewise<T>| pw_nums(w), "Piecewise", &pn);
         let pnf: Vec<f64> = pn.iter().map(|x| if x.is_finite() { *x } else { value(r, true) }).collect();
         let pvf: Piecewise<T> = Piecewise { segments: pnf.chunks(<T as Nums>::LEN + 1).map(|c| Segment::<T>::from_nums(c)).collect() };
-        compare(m, "json", "Piecewise", &pnf, rt_json(&pvf, |w: &Piecewise<T>| pw_nums(w)));
+        compare_opt(m, "json", "Piecewise", &pnf, (&Wrap(&pvf, &|w: &Piecewise<T>| pw_nums(w))).json_rt());
         m.sample(&format!("family:{}", name), 1, || json!({"type": name, "numbers": nums, "piecewise_segments": n}));
     }};
 }
@@ -158,11 +216,11 @@ fn knot(m: &mut Mon, r: &mut Rng) {
     let nums = vec![value(r, false), value(r, false)];
     let v = Knot::from_nums(&nums);
     m.case(hash_bits(182, nums.iter().map(|e| e.to_bits())));
-    compare(m, "cbor", "Knot", &nums, rt_cbor(&v, |w: &Knot| w.nums()));
+    compare_opt(m, "cbor", "Knot", &nums, (&Wrap(&v, &|w: &Knot| w.nums())).cbor_rt());
     borsh_lane!(m, &v, |w: &Knot| w.nums(), "Knot", &nums);
     let numsf = vec![value(r, true), value(r, true)];
     let vf = Knot::from_nums(&numsf);
-    compare(m, "json", "Knot", &numsf, rt_json(&vf, |w: &Knot| w.nums()));
+    compare_opt(m, "json", "Knot", &numsf, (&Wrap(&vf, &|w: &Knot| w.nums())).json_rt());
 }
 
 pub fn canaries(m: &mut Mon) {
@@ -196,8 +254,8 @@ fn large(m: &mut Mon, r: &mut Rng) {
                 let pv: Piecewise<T> = Piecewise { segments: pn.chunks(<T as Nums>::LEN + 1).map(|c| Segment::<T>::from_nums(c)).collect() };
                 m.case(hash_bits(183, [n as u64, name.len() as u64, pn[0].to_bits(), pn[pn.len() - 1].to_bits()]));
                 m.count("piecewise_segments:4096+");
-                compare(m, "cbor", "Piecewise", &pn, rt_cbor(&pv, |w: &Piecewise<T>| pw_nums(w)));
-                compare(m, "json", "Piecewise", &pn, rt_json(&pv, |w: &Piecewise<T>| pw_nums(w)));
+                compare_opt(m, "cbor", "Piecewise", &pn, (&Wrap(&pv, &|w: &Piecewise<T>| pw_nums(w))).cbor_rt());
+                compare_opt(m, "json", "Piecewise", &pn, (&Wrap(&pv, &|w: &Piecewise<T>| pw_nums(w))).json_rt());
                 borsh_lane!(m, &pv, |w: &Piecewise<T>| pw_nums(w), "Piecewise", &pn);
             }};
         }
